@@ -16,9 +16,9 @@ namespace Pc.It
 open Nat
 
 /-- `q` is the smallest prime `≥ m` -/
-def IsNext (m q : ℕ) : Prop := q.Prime ∧ m ≤ q ∧ ∀ x, m ≤ x → x < q → ¬ x.Prime
+def IsNextP (m q : ℕ) : Prop := q.Prime ∧ m ≤ q ∧ ∀ x, m ≤ x → x < q → ¬ x.Prime
 /-- `p` is the largest prime `≤ t` -/
-def IsPrev (t p : ℕ) : Prop := p.Prime ∧ p ≤ t ∧ ∀ x, x.Prime → x ≤ t → x ≤ p
+def IsPrevP (t p : ℕ) : Prop := p.Prime ∧ p ≤ t ∧ ∀ x, x.Prime → x ≤ t → x ≤ p
 
 /-- `l` lists exactly the primes of `[m, nn)`, strictly increasing -/
 def Rest (l : List ℕ) (m nn : ℕ) : Prop := l.Pairwise (· < ·) ∧ ∀ x, x ∈ l ↔ x.Prime ∧ m ≤ x ∧ x < nn
@@ -36,7 +36,7 @@ theorem fwdInv_init (start hint : ℕ) (hs : start ≤ umax) (hh : hint ≤ umax
 
 theorem nextPrime_step (e : Env) (he : GenSpec e) (s : St) (m : ℕ) (h : FwdInv s m)
     (hex : ∃ p, p.Prime ∧ m ≤ p ∧ p ≤ umax) :
-    ∃ q s', nextPrime e s = .ok (q, s') ∧ IsNext m q ∧ FwdInv s' (q + 1) := by
+    ∃ q s', nextPrime e s = .ok (q, s') ∧ IsNextP m q ∧ FwdInv s' (q + 1) := by
   obtain ⟨hh, hst, nn, hready, hmn, hsorted, hmem⟩ := h
   unfold nextPrime
   simp only []
@@ -135,7 +135,7 @@ theorem bwdInv_init (start hint : ℕ) (hs : start ≤ umax) : BwdInv (init star
 
 /-- `prev_prime()` when `i_ ≠ 0` -/
 theorem prevPrime_inbuf (e : Env) (s : St) (t : ℕ) (h : BwdInv s t) (hi : s.i ≠ 0) (hex : ∃ r, r.Prime ∧ r ≤ t) :
-    ∃ p s', prevPrime e s = .ok (p, s') ∧ IsPrev t p ∧ BwdInv s' (p - 1) := by
+    ∃ p s', prevPrime e s = .ok (p, s') ∧ IsPrevP t p ∧ BwdInv s' (p - 1) := by
   obtain ⟨hgen, hst, htop, hile, hsorted, hle, hprime, habove, hall⟩ := h
   obtain ⟨j, hj⟩ : ∃ j, s.i = j + 1 := ⟨s.i - 1, by omega⟩
   have hjlt : j < s.buf.length := by omega
@@ -202,7 +202,7 @@ theorem prevPrime_inbuf (e : Env) (s : St) (t : ℕ) (h : BwdInv s t) (hi : s.i 
       · exact Or.inr h1
 
 theorem prevPrime_step (e : Env) (he : GenSpec e) (s : St) (t : ℕ) (h : BwdInv s t) (hex : ∃ r, r.Prime ∧ r ≤ t) :
-    ∃ p s', prevPrime e s = .ok (p, s') ∧ IsPrev t p ∧ BwdInv s' (p - 1) := by
+    ∃ p s', prevPrime e s = .ok (p, s') ∧ IsPrevP t p ∧ BwdInv s' (p - 1) := by
   by_cases hi : s.i = 0
   · obtain ⟨hgen, hst, htop, hile, hsorted, hle, hprime, habove, hall⟩ := h
     obtain ⟨s', hs', hd⟩ := genPrev_none e he s hgen hst
